@@ -1196,6 +1196,51 @@ func registerStdlib(e *Engine) {
 	x["runtime.KeepAlive"] = externNoop
 	x["runtime.SetFinalizer"] = externNoop
 	x["runtime.GC"] = externNoop
+	// single-directory file model (C19): files are byte strings keyed by path
+	files := func(ex *Exec) map[string]Slice {
+		m, _ := ex.side["files"].(map[string]Slice)
+		if m == nil {
+			m = map[string]Slice{}
+			ex.side["files"] = m
+		}
+		return m
+	}
+	notExist := func(ex *Exec, op string) Value {
+		e := ex.newError(op + ": no such file or directory (gosx file model)")
+		ex.side["notexist"] = e.(Iface).V
+		return e
+	}
+	x["os.WriteFile"] = func(ex *Exec, c *frame, f *ssa.Function, a []Value) Value {
+		p, ok := a[0].(string)
+		if !ok {
+			ex.unsupported("os.WriteFile with symbolic path")
+		}
+		files(ex)[p] = append(Slice(nil), a[1].(Slice)...)
+		return Iface{}
+	}
+	x["os.ReadFile"] = func(ex *Exec, c *frame, f *ssa.Function, a []Value) Value {
+		p, ok := a[0].(string)
+		if !ok {
+			ex.unsupported("os.ReadFile with symbolic path")
+		}
+		if b, has := files(ex)[p]; has {
+			return Tuple{append(Slice{}, b...), Iface{}}
+		}
+		return Tuple{Slice(nil), notExist(ex, "open "+p)}
+	}
+	x["os.Stat"] = func(ex *Exec, c *frame, f *ssa.Function, a []Value) Value {
+		p, _ := a[0].(string)
+		if _, has := files(ex)[p]; has {
+			return Tuple{Iface{}, Iface{}}
+		}
+		return Tuple{Iface{}, notExist(ex, "stat "+p)}
+	}
+	x["os.MkdirAll"] = func(ex *Exec, c *frame, f *ssa.Function, a []Value) Value { return Iface{} }
+	x["os.Remove"] = func(ex *Exec, c *frame, f *ssa.Function, a []Value) Value {
+		p, _ := a[0].(string)
+		delete(files(ex), p)
+		return Iface{}
+	}
 	x["encoding/gob.Register"] = externNoop
 	x["os.Open"] = func(ex *Exec, c *frame, f *ssa.Function, a []Value) Value {
 		// file model: no file exists (caches start empty); see DESIGN C04
